@@ -9,8 +9,7 @@
 // Ops (one output line each)
 //
 //   fetch <mode> <payload-hex> <path> <path> ...                                            (C30)
-//       mode   : auto | direct | tonly | cfb   optionally followed by "+pre" (an output file with the
-//                content "OLD" exists beforehand and --yes is passed)
+//       mode   : auto | direct | tonly | cfb
 //       path   : <kind>:<prio>:<script>
 //                kind  t = transport hint (tcp)   r = relay transport hint   c = control hint
 //                      f = control:// fallback    l = the local daemon (at most one)
@@ -28,6 +27,9 @@
 //          node: metadata["filename"] of the manifest Node::store_chunk issues for original_name=<hex>
 //          hint: security::sanitize_filename_hint(<hex>)
 //          via : store_chunk(original_name = *hint) -- the route the daemon's STORE command takes
+//   nm <hex>
+//       same output, but computed by calling the sanitising source text extracted from the working tree
+//       (fast; used for the exhaustive two-byte sweep).  "unavailable" if the extraction found nothing.
 //   join <dir-hex> <name-hex>
 //       -> p=<hex of (dir / name)> parent=<hex of its parent_path()> file=<hex of its filename()>
 //
@@ -56,6 +58,12 @@
 
 #include "ephemeralnet/core/Node.hpp"
 #include "ephemeralnet/security/StoreProof.hpp"
+
+// (T) the two sanitising code blocks, copied verbatim from the working tree by props/C31.py:extract()
+// into a generated header (they are local lambdas / statement blocks and cannot be called otherwise).
+#if __has_include("c31_extracted.hpp")
+#include "c31_extracted.hpp"
+#endif
 
 namespace fs = std::filesystem;
 namespace en = ephemeralnet;
@@ -543,7 +551,9 @@ std::string cli_created_name(const std::string& raw) {
     return res;
 }
 
+int g_node_uses = 0;
 std::string node_recorded_name(const std::optional<std::string>& original) {
+    if (++g_node_uses % 2048 == 0) g_node.reset();
     if (!g_node) {
         en::Config cfg{};
         cfg.relay_enabled = false;
@@ -573,6 +583,21 @@ std::string op_name(const std::vector<std::string>& t) {
     const auto hint = en::security::sanitize_filename_hint(raw);
     const std::string via = hint.has_value() ? node_recorded_name(*hint) : std::string("-");
     return "cli=" + cli + " node=" + node + " hint=" + (hint.has_value() ? hex_of(*hint) : std::string("-")) + " via=" + via;
+}
+
+std::string op_nm(const std::vector<std::string>& t) {
+    if (t.size() != 2) return "bad-op";
+#ifdef C31X_AVAILABLE
+    const std::string raw = str_of_hex(t[1]);
+    const std::string cli = c31x::cli_sanitize(raw);
+    const auto node = c31x::node_filename(raw);
+    const auto hint = en::security::sanitize_filename_hint(raw);
+    const auto via = hint.has_value() ? c31x::node_filename(*hint) : std::optional<std::string>{};
+    return "cli=" + hex_of(cli) + " node=" + (node ? hex_of(*node) : std::string("-")) + " hint=" +
+           (hint.has_value() ? hex_of(*hint) : std::string("-")) + " via=" + (via ? hex_of(*via) : std::string("-"));
+#else
+    return "unavailable";
+#endif
 }
 
 std::string op_join(const std::vector<std::string>& t) {
@@ -704,14 +729,13 @@ struct Effective {
 };
 
 std::string classify(const std::string& code, const std::string& message) {
-    std::string kind = "other";
-    if (message.find("Profile not found") != std::string::npos) kind = "notfound";
-    else if (message.find("cycle") != std::string::npos) kind = "cycle";
-    else if (message.find("'extends' must be") != std::string::npos) kind = "extends";
-    else if (message.find("Profile must be a mapping") != std::string::npos) kind = "notmap";
-    else if (message.find("Expected ") != std::string::npos) kind = "type";
-    else if (message.find("must be") != std::string::npos) kind = "range";
-    else if (message.find("Environment") != std::string::npos || message.find("environments") != std::string::npos) kind = "env";
+    std::string kind = "-";
+    if (code == "E_CONFIG_PROFILE") {
+        if (message.find("Profile not found") != std::string::npos) kind = "notfound";
+        else if (message.find("cycle") != std::string::npos) kind = "cycle";
+        else if (message.find("'extends' must be") != std::string::npos) kind = "extends";
+        else kind = "other";
+    }
     return "err:" + code + ":" + kind;
 }
 
@@ -876,6 +900,7 @@ int main(int argc, char** argv) {
     h.op = [](const std::vector<std::string>& t, const std::string&) -> std::string {
         if (t[0] == "fetch") return hz::op_fetch(t);
         if (t[0] == "name") return hz::op_name(t);
+        if (t[0] == "nm") return hz::op_nm(t);
         if (t[0] == "join") return hz::op_join(t);
         if (t[0] == "cfg") return hz::op_cfg(t, false);
         if (t[0] == "cfgx") return hz::op_cfg(t, true);
